@@ -120,8 +120,11 @@ class Report:
             'wall_s': round(time.time() - self.t0, 2),
             'violations': n_viol,
         }
-        os.makedirs(os.path.join(VERIF, 'evidence'), exist_ok=True)
-        p = os.path.join(VERIF, 'evidence', f'{self.pid}.json')
+        # runs against a scratch worktree (VERIF_REPO=..., used for seeded changes) must not overwrite the evidence of /repo
+        scratch_run = os.path.realpath(build.REPO) != '/repo'
+        edir = os.path.join(VERIF, '.cache', 'evidence-scratch') if scratch_run else os.path.join(VERIF, 'evidence')
+        os.makedirs(edir, exist_ok=True)
+        p = os.path.join(edir, f'{self.pid}.json')
         tmp = p + '.tmp'
         with open(tmp, 'w') as fh:
             json.dump(ev, fh, indent=1, ensure_ascii=False, default=str)
